@@ -36,7 +36,10 @@ CHECKS = {
              "stored snapshots) for every log-density and temperature; mode() is the arg-max. The models are tied to the code by "
              "replaying every recorded transition inside Coq; the exact alignment oracle runs on every real object after steps, "
              "advance and exchanges driven through the real worker loop; aliasing / independence of samplers built from shared "
-             "arrays is decided by the run.",
+             "arrays is decided by the run. Round 4: the chain as a store grown by single writes with the log-density evaluations as "
+             "crash points (Model/ChainStore.v, Properties/C03Store.v: alignment at EVERY moment of every history of completed and "
+             "interrupted calls; interleaved Gibbs store and a mode() that skips the start refuted); every chain is looked at before "
+             "the first and after every step, from inside every evaluation and right after interruptions.",
         note="Trusted: Coq kernel + vm_compute; Python harness; value-semantics model (aliasing decided by the run); adaptation "
              "frozen during recorded transitions.",
         design="DESIGN.md section 5, C03"),
@@ -58,7 +61,11 @@ CHECKS = {
         text="All clauses of C13 (end points are sample values, coverage > fraction, optimality against every closed interval, "
              "permutation invariance, positive-affine covariance, column independence, fallback) are Coq theorems about "
              "Model/Hdi.v for every sample and every L, closed under the global context; the model is compared exactly "
-             "(inside Coq, no tolerance) with the real sample_hdi on 600 (quick) / 6000 (thorough) integer and dyadic inputs per run.",
+             "(inside Coq, no tolerance) with the real sample_hdi on 600 (quick) / 6000 (thorough) integer and dyadic inputs per run. "
+             "Round 4: a storage-level model (Model/HdiStorage.v, Properties/C13Storage.v: byte-addressed memory, dtype kind / size / "
+             "byte order, strided views, items decoded from the raw bytes incl. IEEE floats, wrapping machine arithmetic; the result is "
+             "independent of the storage format, native-width arithmetic refuted) and 240 / 2048 cases over {int8..uint64, "
+             "float16..longdouble} x {little, big endian} x {C, Fortran, strided, reversed, 0-stride, read-only, unaligned, subclass}.",
         note="Trusted: Coq kernel + vm_compute; the Python harness; NumPy sort/argmin semantics as modelled; L=int(fraction*n) is a "
              "model input checked exactly against floor(fraction*n) per case; 'caller's array not modified' is decided by the run.",
         design="DESIGN.md section 5, C13"),
